@@ -59,6 +59,7 @@ class BaseSection(base.Sectionable):
     _link = None
     _include = None
     _merged = None
+    _merged_attributes = ()
 
     _format = fmt.Section
 
@@ -771,10 +772,15 @@ class BaseSection(base.Sectionable):
         self.merge_check(section, strict)
         self._merge_name_check(section)
 
+        # Remember which attributes are taken over from the merged Section:
+        # they are removed again when the Section is unmerged.
+        taken_over = []
         if self.definition is None and section.definition is not None:
             self.definition = section.definition
+            taken_over.append("definition")
         if self.reference is None and section.reference is not None:
             self.reference = section.reference
+            taken_over.append("reference")
 
         for obj in section:
             mine = self.contains(obj)
@@ -785,6 +791,7 @@ class BaseSection(base.Sectionable):
                 mine._merged = obj
                 self.append(mine)
         self._merged = section
+        self._merged_attributes = tuple(taken_over)
 
     @inherit_docstring
     def clean(self):
@@ -818,6 +825,13 @@ class BaseSection(base.Sectionable):
             # TODO get_absolute_path
             # TODO don't change if the section can still be reached using the old link
             self._link = self.get_relative_path(section)
+
+        # An attribute that has been taken over from the merged Section and still
+        # holds its content is not content of this Section.
+        for attr in self._merged_attributes:
+            if getattr(self, attr) == getattr(section, attr):
+                setattr(self, attr, None)
+        self._merged_attributes = ()
 
         self._merged = None
 
